@@ -51,6 +51,7 @@ func runC06(c *Ctx) {
 	c.c06MoveKeepsWhatStays()
 	c.c06MoveGuards()
 	c.c06CopyToDirectory()
+	c.c06MoveFolderEntries()
 }
 
 // c06Overlap: "a copy never changes its source, also when source and destination overlap" / "a call terminates".
@@ -1161,4 +1162,63 @@ func (c *Ctx) c06CopyToDirectory() {
 		c.check(dominates(mk, cp) && len(errs) > 0 && onNilSide(errs[0], cp), "Z11", key, c.ipos(cp), "MkDir(destination) succeeded before the copy",
 			"the copy can run without the destination directory having been created successfully first")
 	}
+}
+
+// c06MoveFolderEntries (Z12): moving a folder entry by entry reproduces the tree: each entry src/<name> goes to
+// dest/<name>. Handing an entry the destination directory itself works for files (they land in it) but merges the
+// content of a sub-directory into the destination: the sub-tree is flattened, same-named files overwrite one another.
+func (c *Ctx) c06MoveFolderEntries() {
+	c.rule("Z12", "move: the folder worker moves each entry to the destination joined with the name of that entry", 1)
+	mf := c.fn(fsPkgRel, "(*VFS).moveFolder")
+	if mf == nil {
+		return
+	}
+	si, di := paramIndexByName(mf, "src"), paramIndexByName(mf, "dest")
+	key := fname(mf) + "/entry-destination"
+	if si < 0 || di < 0 {
+		c.violate("Z12", key, c.pos(mf.Pos()), "moveFolder no longer has src/dest parameters")
+		return
+	}
+	src, dest := mf.Params[si], mf.Params[di]
+	n, bad := 0, ""
+	allInstrs(mf, func(in ssa.Instruction) {
+		cl, ok := in.(*ssa.Call)
+		if !ok || !inLoop(cl) {
+			return
+		}
+		g := staticCallee(&cl.Call)
+		if g == nil || !strings.HasPrefix(g.Name(), "Move") || len(cl.Call.Args) < 3 {
+			return
+		}
+		// the two path arguments: the last two strings
+		var paths []ssa.Value
+		for _, a := range cl.Call.Args {
+			if bt, isB := a.Type().Underlying().(*types.Basic); isB && bt.Kind() == types.String {
+				paths = append(paths, a)
+			}
+		}
+		if len(paths) < 2 {
+			return
+		}
+		n++
+		from, to := paths[len(paths)-2], paths[len(paths)-1]
+		joined := func(v ssa.Value, dir *ssa.Parameter) (bool, ssa.Value) {
+			j, isCall := resolveValue(v).(*ssa.Call)
+			if !isCall || calleeFull(&j.Call) != "path/filepath.Join" {
+				return false, nil
+			}
+			els := variadicElems(j.Call.Args[0])
+			if len(els) != 2 || resolveValue(els[0]) != ssa.Value(dir) {
+				return false, nil
+			}
+			return true, els[1]
+		}
+		okFrom, nameFrom := joined(from, src)
+		okTo, nameTo := joined(to, dest)
+		if !(okFrom && okTo && sameValue(nameFrom, nameTo)) {
+			bad = c.ipos(cl)
+		}
+	})
+	c.check(n > 0 && bad == "", "Z12", key, c.pos(mf.Pos()), "each entry src/<name> is moved to dest/<name>",
+		"the entry moved at "+bad+" is not sent to the destination joined with its own name: a sub-directory handed the destination directory itself is merged into it — the sub-tree is flattened and files of the same name at different depths overwrite one another")
 }
